@@ -348,9 +348,44 @@ def search(ctx):
                                                 break
                                     except IntegratorError:
                                         ctx.count("search:step:raised")
+    # a constraint function with a restricted domain (raises ValueError off it): a failed solve is a ConvergenceError, nothing else
+    import math
+
+    def log_constr(q):
+        return np.array([math.log(q[0]) + q[1]])
+
+    def log_jac(q):
+        return np.array([[1.0 / q[0], 1.0, 0.0, 0.0]])
+    import mici.systems as S
+    dsys = S.DenseConstrainedEuclideanMetricSystem(lambda q: 0.5 * q @ q, log_constr, grad_neg_log_dens=lambda q: q, jacob_constr=log_jac)
+    for kind, sname in SOLVER_NAMES.items():
+        solver = getattr(mici.solvers, sname)
+        for rep in range(40 if not ctx.thorough else 300):
+            x = float(rng.uniform(0.05, 2.0))
+            q0 = np.array([x, -math.log(x), float(rng.standard_normal()), float(rng.standard_normal())])
+            prev = ChainState(pos=q0.copy(), mom=None, dir=1)
+            prev.mom = dsys.sample_momentum(prev, rng) * 3
+            dt = float(rng.choice([0.4, 0.8, -0.8, 1.5]))
+            st = prev.copy()
+            dsys.h2_flow(st, dt)
+            ctx.count("search:solver:restricted_domain")
+            try:
+                out = solver(st, prev, dt, dsys)
+                ok = abs(log_constr(out.pos)[0]) < 1e-9
+                why = f"returned with residual {abs(log_constr(out.pos)[0]):.2e}"
+            except mici.errors.ConvergenceError:
+                ok, why = True, ""
+            except Exception as e:  # noqa: BLE001
+                ok, why = False, f"raised {type(e).__name__} ({str(e)[:60]}) instead of ConvergenceError"
+            ctx.case(("domain", kind, rep))
+            if not ok:
+                bad += 1
+                ctx.fail(f"not_convergence_error:{kind}", f"{sname} on a constraint function that raises ValueError outside its domain (log q0 + q1 = 0), dt={dt}: {why}",
+                         dict(solver=sname, pos_prev=q0.tolist(), mom_prev=prev.mom.tolist(), time_step=dt))
+                break
     ctx.oblige("search: sampled momenta, momentum projections (cotangent condition, idempotence), direct calls of the three projection solvers (residual below the configured "
                "tolerance on return; position and momentum corrections generated by one multiplier vector) and whole constrained steps, over 4 constraint sets (1-2 constraints, "
-               "curved / linear / badly scaled), 3 metrics, plain and Gaussian-split systems, both density conventions, 4 tolerance settings, 3 time steps, 1 and 3 inner steps",
+               "curved / linear / badly scaled), 3 metrics, plain and Gaussian-split systems, both density conventions, 4 tolerance settings, 3 time steps, 1 and 3 inner steps; a constraint with a restricted domain (failed solves are ConvergenceErrors)",
                bad == 0, f"{bad} failures")
 
 
